@@ -503,8 +503,16 @@ def _trace_binding(rep, prop, seed, ntraces):
     st = run_tlc("MC_BatteryTrace", "Battery_trace", workers=1, extra_files={"battery_trace.ndjson": text}, tags=("REJ",))
     require_ok(st, "battery trace self-test")
     got = st.emitted["REJ"][0]["rejected"]
-    if [g["line"] for g in got] != [4]:
-        raise RuntimeError("trace validation self-test: expected exactly line 4 rejected, got %r" % got)
+    if 4 not in [g["line"] for g in got]:
+        raise RuntimeError("trace validation self-test: the corrupted line 4 was not rejected, got %r" % got)
+    for g in got:
+        if g["tid"] == 0:
+            # the uncorrupted trace of the probe is an execution of the real code like any other: if TLC rejects it,
+            # the implementation left the envelope (a finding, not a failure of the machinery)
+            d = {"field": g["why"], "call": g["line"], "line": good[g["line"] - 1], "plan": probe[0]}
+            rep.violation("%s:ideal:%s" % (prop, g["why"]), json.dumps(d)[:700],
+                          {"kind": "case", "module": "props_battery", "fn": "replay_trace", "case": {"plan": probe[0]},
+                           "mismatch": d})
     res, lines, rejected = validate_traces(plans)
     rep.add_tlc(res, "code->spec: %d logged calls of %d real-noise executions validated against InEnvelope" % (len(lines), len(plans)),
                 "Battery_trace")
